@@ -79,7 +79,14 @@ def rule_phi_insertion(ctx):
     fb = [n for n in walk(fn["body"]) if n["k"] == "Local" and n["pat"]["k"] == "PIdent" and n["pat"]["name"] == "frontier_block"]
     ctx.check(R, "insert_phi_statements/frontier-block-lookup", (len(fb) == 1 and render(strip(fb[0]["init"])).replace(" ", "") == "basic_blocks[frontier_index]") or (not fb and render(strip(ins[0]["recv"])).replace(" ", "") == "basic_blocks[frontier_index]"), render(fb[0]["init"]) if fb else "?", site(SSA, fn))
     conts = [n for n in walk(fn["body"]) if n["k"] in ("Continue", "Break", "Return")]
-    ctx.check(R, "insert_phi_statements/only-skip-is-no-variables-written", len(conts) == 1 and conts[0]["k"] == "Continue", "%d early exits" % len(conts), site(SSA, fn))
+    # skips: only `continue`, and only because the block writes nothing or the frontier block already has the phi
+    # (that the insertion itself is reached under exactly these two tests is checked above)
+    def skip_ok(c_):
+        if c_["k"] != "Continue":
+            return False
+        cs_ = [fact_str(x).replace(" ", "") for x in (conditions_to(fn["body"], c_) or []) if x[0] == "if"]
+        return bool(cs_) and (cs_[-1].endswith(".is_empty()") or ".has_phi_statement(" in cs_[-1]) and not cs_[-1].startswith("!")
+    ctx.check(R, "insert_phi_statements/only-skip-is-no-variables-written", 1 <= len(conts) <= 2 and all(skip_ok(c_) for c_ in conts), "%d early exits" % len(conts), site(SSA, fn))
     # trait defaults
     hp = find_fn(TR, "has_phi_statement")
     if hp is not None:
@@ -119,20 +126,43 @@ def rule_phi_insertion(ctx):
     ctx.check(R, "insert_ssa_variables_impl/shape", ok, "rename x%d, update-phis x%d, recurse x%d, scope +%d -%d" % (len(ren), len(upd), len(rec), len(add), len(rem)), site(SSA, fn))
     if ok:
         ctx.check(R, "insert_ssa_variables_impl/order", line_of(ren[0]) < line_of(upd[0]) < line_of(add[0]) < line_of(rec[0]) < line_of(rem[0]), "rename block < update successors' phis < open scope < recurse < close scope", site(SSA, fn))
-        cu = [fact_str(c).replace(" ", "") for c in (conditions_to(fn["body"], upd[0]) or [])]
-        ctx.check(R, "insert_ssa_variables_impl/every-successor's-phis-updated", cu == ["forsuccessor_indexinsuccessors"], "update under %s" % cu, site(SSA, upd[0]))
-        cr = [fact_str(c).replace(" ", "") for c in (conditions_to(fn["body"], rec[0]) or [])]
-        ctx.check(R, "insert_ssa_variables_impl/every-dominator-child-visited", cr == ["forsuccessor_indexindominator_tree.get_dominator_successors(current_index)"], "recursion under %s" % cr, site(SSA, rec[0]))
+        from pathcond import each_form
+
+        lets_all = sgrep.lets(fn["body"])
+        conds_u = conditions_to(fn["body"], upd[0]) or []
+        recv_u = strip(upd[0]["recv"])
+        if recv_u["k"] == "Path" and recv_u["path"] in lets_all:
+            recv_u = lets_all[recv_u["path"]]
+        rest_u, args_u = each_form(conds_u, [recv_u])
+        cu = rest_u + args_u
+        # the receiver is the block whose index runs over the successors of the current block (named by a let or not)
+        loops_u = [c for c in conds_u if c[0] == "loop" and c[1] == "for"]
+        it_u = strip(loops_u[0][3]) if len(loops_u) == 1 else None
+        if it_u is not None and it_u["k"] == "Path" and it_u["path"] in lets_all:
+            it_u = lets_all[it_u["path"]]
+        src_u = sorted({terms_norm(x) for x in terms_leaves(it_u)}) if it_u is not None else []
+        oku = not rest_u and len(loops_u) == 1 and bool(src_u) and all(x.endswith(".successors()") for x in src_u) and len(args_u) == 1 and re.fullmatch(r"basic_blocks\.get_mut\(each\(.*\)\)(\.expect\(.*\)|\.unwrap\(\))?", args_u[0]) is not None
+        ctx.check(R, "insert_ssa_variables_impl/every-successor's-phis-updated", oku, "update of %s for each of %s, under %s" % (args_u, src_u, rest_u), site(SSA, upd[0]))
+        rest_r, args_r = each_form(conditions_to(fn["body"], rec[0]) or [], [rec[0]["args"][0]])
+        cr = rest_r + args_r
+        ctx.check(R, "insert_ssa_variables_impl/every-dominator-child-visited", not rest_r and args_r == ["each(dominator_tree.get_dominator_successors(current_index))"], "recursion for %s under %s" % (args_r, rest_r), site(SSA, rec[0]))
         ca, cm = [fact_str(c) for c in (conditions_to(fn["body"], add[0]) or [])], [fact_str(c) for c in (conditions_to(fn["body"], rem[0]) or [])]
         ctx.check(R, "insert_ssa_variables_impl/scope-paired-around-each-child", ca == cm and len(ca) == 1, "open under %s, close under %s" % (ca, cm), site(SSA, fn))
         le = let_env(fn["body"])
         sc = le.get("successors")
+        if sc is None and it_u is not None:
+            sc = it_u  # however the set is named: what the update loop runs over
         import terms as _terms
 
         # the set is the successors of the current block on every way through its initialiser (never an empty or a
         # filtered set: a block that writes nothing still passes versions on to the phis of its successors)
         lv = sorted({_terms.norm(x).replace(" ", "") for x in _terms.leaves(sc, {})}) if sc is not None else []
-        oks = sc is not None and "basic_blocks.get_mut(current_index)" in render(sc).replace(" ", "") and bool(lv) and all(x.endswith(".successors()") for x in lv) and not [m_ for m_ in walk(sc) if m_["k"] == "MethodCall" and m_["method"] in ("filter", "retain", "take", "skip", "difference", "intersection")]
+        # `current_block` may be a let of its own: the block looked up at current_index
+        cb_ok = "basic_blocks.get_mut(current_index)" in render(sc).replace(" ", "") if sc is not None else False
+        if sc is not None and not cb_ok:
+            roots_ = {x["path"] for x in walk(sc) if x["k"] == "Path"}
+            cb_ok = any(r_ in lets_all and "basic_blocks.get_mut(current_index)" in render(lets_all[r_]).replace(" ", "") for r_ in roots_)
+        oks = sc is not None and cb_ok and bool(lv) and all(x.endswith(".successors()") for x in lv) and not [m_ for m_ in walk(sc) if m_["k"] == "MethodCall" and m_["method"] in ("filter", "retain", "take", "skip", "difference", "intersection")]
         ctx.check(R, "insert_ssa_variables_impl/successors-of-the-current-block", bool(oks), "successors is one of %s" % lv, site(SSA, fn))
     top = find_fn(SSA, "insert_ssa_variables")
     if top is not None:
@@ -180,6 +210,18 @@ def rule_pipeline(ctx):
     t = render(fn["body"]).replace(" ", "")
     ctx.check(R, "into_ssa/parameters-are-version-0", sgrep.has(fn["body"], "for __n in self.parameters.iter_mut() { *__n = __n.with_version(0); }") or sgrep.has(fn["body"], "self.parameters.iter_mut().for_each(|__n| *__n = __n.with_version(0))"), "", site(CFG, fn))
     ctx.check(R, "into_ssa/declarations-replaced", sgrep.has(fn["body"], "self.declarations = ssa_impl::update_declarations(&mut self.basic_blocks, &self.parameters, __env)", sgrep.lets(fn["body"])), "", site(CFG, fn))
+
+
+def terms_norm(x):
+    import terms as _t
+
+    return _t.norm(x).replace(" ", "")
+
+
+def terms_leaves(e):
+    import terms as _t
+
+    return _t.leaves(e, {})
 
 
 def rule_plumbing(ctx):
